@@ -317,7 +317,8 @@ def _cg_grid(tier):
     if tier == 'quick':
         return []       # measured: 60-90 paths and 200+ s per member (numpy division semantics + sqrt): thorough tier only
     n3 = [(0, 0, 0), (1, 0, 0), (0, -1, 0), (1, -1, 0)]
-    return [(2, n2, 1), (2, [(0, 0), (1, 0)], 2), (3, n3, 1), (3, [(1, 0, 0)], 2)]
+    # (two-iteration and n = 3 members were written and tried: a single path needs dozens of long queries and ignores every budget - not registered)
+    return [(2, n2, 1)]
 
 
 FUNCS = ['trust_region.trsbox', 'trust_region.alt_trust_step', 'trust_region.d_within_bounds']
@@ -350,7 +351,8 @@ def harnesses(tier, seed):
         for xb in pats:
             for restart in (True, False):
                 hs.append(Harness("cg-iteration[n=%d,fixed=%s,%s,steps=%d]" % (n, ''.join('+' if v == 1 else '-' if v == -1 else '0' for v in xb), 'restart' if restart else 'conjugate', steps),
-                                  'dfverif.checks.c12', 'body_cg_iter', params=dict(n=n, xbdi0=list(xb), restart=restart, steps=steps), cfg=nra(), functions=FUNCS,
+                                  'dfverif.checks.c12', 'body_cg_iter', params=dict(n=n, xbdi0=list(xb), restart=restart, steps=steps),
+                                  cfg=core.Cfg(fork_queries=True, qtimeout_ms=30000, nra_first_ms=5000, portfolio=True, portfolio_s=45, portfolio_logic='QF_NRA', ite_minmax=True), functions=FUNCS,
                                   bounds="n=%d, %d iteration(s) of the sliced CG loop of trsbox from ANY state satisfying CG-INV; xopt, box, Delta, H (symmetric), d, s, gnew all symbolic; fixed-variable pattern %s" % (n, steps, list(xb)),
                                   assumptions=["CG-INV at the loop head (DESIGN 4/C12): box, fixed variables on their bounds, delsq = Delta^2 - sum_fixed d_i^2 > 0, |d_free|^2 <= delsq, conjugacy when beta != 0",
                                                "real arithmetic (QF_NRA); the model gradient g enters only through gnew (obligations are stated relative to the pre-state)"],
